@@ -153,6 +153,7 @@ func compareAggregate(agg [][2]string, want map[string]string, posOf func(string
 
 func C13(c *core.Ctx) {
 	c.Explanation("C13: the aggregate writers and the per-sequence writers are interpreted on the same bounded families of per-sequence results (all sequences of up to three records drawn from fixed mutation lists, with and without a reference record, thresholds 0, 0.5 (an occurring frequency) and 1, two windows, --append-snps on/off); the aggregate output must list exactly the mutations whose count over the per-sequence writer's rows divided by the number of rows is >= threshold, each once, with that frequency printed by FormatFloat('f', 9, 64), in non-decreasing genomic position. This decides the counting map, the denominator (reference excluded), the threshold comparison, the shared window predicate and the number format for those families; it does not decide that a mutation occurs at most once per sequence's list (assumed).")
+	checkReferenceRecordName(c, "R6")
 	c.Assumption("a mutation occurs at most once in one sequence's list (property C04/C05 territory)")
 	// ---------------- snps
 	univ := []string{"C5T", "A10T", "A10G"}
@@ -344,6 +345,55 @@ func C13(c *core.Ctx) {
 		if len(bad) > 20 {
 			break
 		}
+	}
+	// reverse-strand feature: residue numbers run against genomic coordinates; the order is by position
+	{
+		aaHi := mk("aa", 10, 0, "K", "Q", 5, "r", "nuc:A11C")
+		nucMid := mk("nuc", 15, 0, "A", "C", 0, "", "")
+		aaLo := mk("aa", 16, 0, "L", "V", 3, "r", "nuc:A17C")
+		aaLast := mk("aa", 22, 0, "S", "T", 1, "r", "nuc:A23C")
+		posRev := func(m string) (int, bool) {
+			switch {
+			case strings.HasPrefix(m, "aa:r:K5Q"):
+				return 10, true
+			case strings.HasPrefix(m, "nuc:A15C"):
+				return 15, true
+			case strings.HasPrefix(m, "aa:r:L3V"):
+				return 16, true
+			case strings.HasPrefix(m, "aa:r:S1T"):
+				return 22, true
+			}
+			return 0, false
+		}
+		var badR []string
+		for _, app := range []bool{false, true} {
+			feed := []eval.Value{mkAnno(c, "q0", 0, aaHi, nucMid, aaLo, aaLast), mkAnno(c, "q1", 1, aaLo), mkAnno(c, "q2", 2, aaHi, aaLast)}
+			n++
+			agg, err := evalAggregateVariants(c, false, feed, -1, -1, app, 0, "ref")
+			if err != nil {
+				badR = append(badR, "undecided: "+err.Error())
+				continue
+			}
+			lines, err := parseAggregate(agg, "mutation,frequency\n")
+			if err != nil {
+				badR = append(badR, err.Error())
+				continue
+			}
+			last, seen := -1, 0
+			for _, l := range lines {
+				if p, ok := posRev(l[0]); ok {
+					seen++
+					if p < last {
+						badR = append(badR, fmt.Sprintf("append-snps=%v: %s (position %d) is listed after position %d", app, l[0], p, last))
+					}
+					last = p
+				}
+			}
+			if seen != 4 {
+				badR = append(badR, fmt.Sprintf("append-snps=%v: %d of the 4 mutations listed: %q", app, seen, agg))
+			}
+		}
+		c.Ob("R5/variants/reverse-strand-feature-ordered-by-position", len(badR) == 0, funcPos(c, "pkg/variants", "AggregateWriteVariants"), "%s", first(badR, 3))
 	}
 	// a threshold exactly equal to an occurring frequency k/n keeps the mutation, for every 1 <= k <= n <= 30
 	// (floating point: k/n compared with the threshold, not k with threshold*n)
